@@ -399,8 +399,12 @@ def st_repeat(draw):
     register) is written, compiled, filled and committed several times on one connection, each time with other values"""
     n_rot = draw(st.integers(1, 3))
     block = [[draw(st.sampled_from("XYZ")), draw(st.sampled_from(["t", "t", "u"])), draw(st.sampled_from([None, 0, 1, 2, 3, 4]))] for _ in range(n_rot)]
-    rounds = [{"t": draw(st.integers(0, 31)), "u": draw(st.integers(0, 31))} for _ in range(draw(st.integers(2, 4)))]
-    return {"repeat": True, "block": block, "rounds": rounds, "nv": draw(st.integers(0, 2)) == 0, "plain_between": draw(st.booleans()), "outcomes": [], "values": {}}
+    meas_reg = draw(st.integers(0, 2)) == 0
+    n_rounds = draw(st.integers(17, 20)) if meas_reg and draw(st.booleans()) else draw(st.integers(2, 4))
+    rounds = [{"t": draw(st.integers(0, 31)), "u": draw(st.integers(0, 31))} for _ in range(n_rounds)]
+    # meas_reg: every round works on a fresh qubit and measures it into a register (the outcome handle of a compiled block)
+    return {"repeat": True, "block": block, "rounds": rounds, "nv": draw(st.integers(0, 2)) == 0, "plain_between": draw(st.booleans()) and not meas_reg, "meas_reg": meas_reg,
+            "outcomes": [draw(st.integers(0, 1)) for _ in range(n_rounds)] if meas_reg else [], "values": {}}
 
 
 def check_repeat(case) -> Dict[str, Any]:
@@ -415,10 +419,19 @@ def check_repeat(case) -> Dict[str, Any]:
             q = Qubit(conn)
             conn.flush()
             start = len(ex.events)
+            handles = []
             for vals in case["rounds"]:
+                if case.get("meas_reg"):
+                    q2 = Qubit(conn)
                 for axis, name, d in case["block"]:
+                    if case.get("meas_reg"):
+                        n = Template(name) if flow == "A" else vals[name]
+                        getattr(q2, "rot_" + axis)(n=n, **({} if d is None else {"d": d}))
+                        continue
                     n = Template(name) if flow == "A" else vals[name]
                     getattr(q, "rot_" + axis)(n=n, **({} if d is None else {"d": d}))
+                if case.get("meas_reg"):
+                    handles.append(q2.measure(store_array=False))
                 if flow == "A":
                     sub = conn.compile()
                     sub.instantiate(conn.app_id, dict(vals))
@@ -432,7 +445,7 @@ def check_repeat(case) -> Dict[str, Any]:
             conn.flush()
         except Exception as e:
             raise Failure(f"repeat:raises:{flow}", case, f"flow {flow}: {type(e).__name__}: {(str(e).splitlines() or [''])[0][:160]}")
-        traces[flow] = [tuple(e) for e in ex.events[start:]]
+        traces[flow] = [tuple(e) for e in ex.events[start:]] + [("host-reads", [int(h) for h in handles])]
     if traces["A"] != traces["B"]:
         k = next((i for i, (a, b) in enumerate(zip(traces["A"], traces["B"])) if a != b), min(len(traces["A"]), len(traces["B"])))
         raise Failure("repeat:trace", case, f"the block compiled/instantiated/committed {len(case['rounds'])} times differs from flushing it with the same values at event {k}: "
